@@ -100,13 +100,6 @@ theorem v2_diff_writer_total (stored old new : List Root) :
 
 /-! ### commit_sets_size_root -/
 
-theorem findC_committed (w : World H) (id : Nat) (c : Contract H) (hc : findC w.db.contracts id = some c)
-    (rev' : Rev H) (l' : List Root) :
-    findC (committed w id rev' l').db.contracts id = some { c with rev := rev', rows := mkRows 0 l' } := by
-  simp only [committed]
-  rw [findC_mapC _ _ _ _ (by intro c; rfl), hc]
-  simp [(findC_some hc).2]
-
 /-- After an accepted v1 RPC (Lock, updater calls, Commit) the persisted contract holds the updater's list:
 rows = rows of that list, cache = that list, filesize = sectorSize·length, merkleRoot = metaRoot(list),
 revision number = the signed one. -/
@@ -153,26 +146,18 @@ with no injected failure, is accepted. -/
 theorem commit_accepted_v1 (P : Params H) (w : World H) (g : Good P w) (id : Nat) (acts : List Action) (rn : Nat)
     (hlk : lockV1 w P id = true)
     (hs : ∀ a ∈ (record (cacheGet w.cache id) acts).1, a.storedOK w.db.stored = true) :
-    (stepOp P w (.rpc1 id acts rn false none)).2.1.accepted = true := by
-  obtain ⟨c, hc, hv, hl, _⟩ := lockV1_live P w g id hlk
-  have hcid : c.id = id := (findC_some hc).2
-  have hrows : c.rows = mkRows 0 (cacheGet w.cache id) := by
-    have := (g.live c (findC_some hc).1 hl).1
-    rwa [hcid] at this
-  have hrun := Updater.run_eq (Updater.new (cacheGet w.cache id)) acts
-  simp only [stepOp, hlk, Bool.not_true, Bool.false_eq_true, if_false, Bool.false_and]
-  unfold rpcV1
-  simp only [hc]
-  rcases hr : (Updater.new (cacheGet w.cache id)).run acts with ⟨u, oks⟩
-  rw [hr] at hrun
-  simp only [Updater.new, List.nil_append] at hrun
-  subst hrun
-  simp only
-  rw [storeReviseV1_none w.db id _ _ _ c hc hv, hrows]
-  have := replayAll_record w.db.stored (cacheGet w.cache id) acts
-  simp only [mirror] at this
-  rw [this, if_pos (by simpa using hs)]
-  rfl
+    (stepOp P w (.rpc1 id acts rn false none)).2.1.accepted = true :=
+  rpc1_accepted_of_stored P w g id acts rn hlk hs
+
+/-- … and so is a valid `ReviseV2Contract` whose new roots are stored. -/
+theorem commit_accepted_v2 (P : Params H) (w : World H) (g : Good P w) (id : Nat) (c : Contract H)
+    (hc : findC w.db.contracts id = some c) (hv : c.v2 = true) (hl : c.renewedTo = none)
+    (r : V2Revision H) (nr : List Root)
+    (hk : r.sameKeys = true) (hsig : r.sigsOK = true)
+    (hfs : r.rev.filesize = P.sectorSize * nr.length) (hcap : r.rev.filesize ≤ r.rev.capacity)
+    (hmk : r.rev.merkle = P.metaRoot nr) (hs : ∀ x ∈ nr, x ∈ w.db.stored) :
+    (stepOp P w (.rev2 id r nr none)).2.1.accepted = true :=
+  rev2_accepted_of_valid P w g id c hc hv hl r nr hk hsig hfs hcap hmk hs
 
 /-! ### failed_commit_noop -/
 
@@ -180,11 +165,8 @@ theorem commit_accepted_v1 (P : Params H) (w : World H) (g : Good P w) (id : Nat
 an injected statement failure) leaves rows, revisions, links, `stored_sectors` and the cache exactly as they were:
 the cache is only written after the store call returned nil. -/
 theorem failed_commit_noop (P : Params H) (w : World H) (g : Good P w) (op : Op H) (hop : OpOK P op)
-    (h : (stepOp P w op).2.1.accepted = false) : (stepOp P w op).1 = w := by
-  have e := step_effect P w g op hop
-  generalize (stepOp P w op).1 = w' at e ⊢
-  generalize (stepOp P w op).2.1.accepted = a at e h
-  cases e <;> first | rfl | cases h
+    (h : (stepOp P w op).2.1.accepted = false) : (stepOp P w op).1 = w :=
+  step_unchanged P w g op hop h
 
 /-- A statement failure at ANY index of the commit transaction (the contract update, each replayed action,
 COMMIT itself) makes the commit fail — and by `failed_commit_noop` nothing changes. -/
